@@ -97,6 +97,13 @@ pub fn app(mut ctx: RequestContext, res: &mut ResponseHandle) -> io::Result<()> 
         use io::ErrorKind::*;
         let k = match kind { "wb" => WouldBlock, "to" => TimedOut, "intr" => Interrupted, "pipe" => BrokenPipe, "eof" => UnexpectedEof, "reset" => ConnectionReset, _ => Other };
         Err(io::Error::new(k, "handler failed"))
+    } else if path.starts_with("/closerep") {
+        // the close token put in place by replace() over an existing Connection field
+        let mut h = Headers::new_nodate();
+        h.add("connection", &b"keep-alive"[..]);
+        h.replace("Connection", &b"close"[..]);
+        let d = describe(&ctx, b"");
+        res.ok(&h, d)
     } else if path.starts_with("/closer") {
         // the close token on a streamed (reader) response
         let mut h = Headers::new_nodate();
